@@ -96,6 +96,9 @@ func (a *Asm) LoadU8(reg int, addr uint32) {
 	a.op(OpLoadU8, byte(reg), byte(addr), byte(addr>>8), byte(addr>>16), byte(addr>>24))
 }
 
+// AddImm64 emits add_imm_64 dst, src, imm8 (dst = src + imm8; one-octet immediate below 0x80).
+func (a *Asm) AddImm64(dst, src int, imm8 byte) { a.op(OpAddImm64, byte(src<<4|dst), imm8) }
+
 // Trap emits trap.
 func (a *Asm) Trap() { a.op(OpTrap) }
 
